@@ -733,7 +733,7 @@ def run(ctx: Ctx) -> None:
     rep.rule("C09.R21", "a path given by name is resolved in the module namespace only when the name is not a parameter / local variable of the analysed function (which may shadow the "
                         "module variable): the store-path resolver refuses such a name, and the call-site inspectors hand over the local names")
     n21 = local_paths_refused(ctx, "C09.R21")
-    rep.floor("C09.R21", n21, 5)
+    rep.floor("C09.R21", n21, 4)
     rep.rule("C09.R22", "inside an evaluation load looks first among the paths this evaluation produces, then among those resolved from the store at its start")
     n22 = load_prefers_own_paths(ctx, "C09.R22")
     rep.floor("C09.R22", n22, 1)
